@@ -14,6 +14,7 @@ import itertools
 import numpy as np
 
 from ..common import import_lazy_dataset, exc_sig, rng_for
+from ..vias import COPYING, through
 
 PROPERTY = 'C12'
 LEVEL = 'exploration'
@@ -83,11 +84,16 @@ def is_perm(out, n):
     return sorted(out) == list(range(n))
 
 
-def check_single(ld, kind, n, b, rngkind, seed, res):
+def check_single(ld, kind, n, b, rngkind, seed, res, path='direct'):
+    """`path`: how the shuffled dataset is consumed (vlib/vias.py); the buffer
+    size of a local shuffle is a parameter that every copy has to keep."""
     case = {'shuffle': kind, 'n': n, 'b': b, 'rng': rngkind, 'seed': seed}
-    res.case(('single', kind, n, b, rngkind, seed), nontrivial=n >= 2)
+    if path != 'direct':
+        case['path'] = path
+        res.count('iterations_through_copies')
+    res.case(('single', kind, n, b, rngkind, seed, path), nontrivial=n >= 2)
     try:
-        ds = shuffled(ld, kind, n, b, rngkind, seed)
+        ds = through(ld, shuffled(ld, kind, n, b, rngkind, seed), path)
         epochs = [list(ds) for _ in range(3)]
     except BaseException as e:
         res.violation('shuffle-raised', case, exc_sig(e), sig={'shuffle': kind})
@@ -108,6 +114,8 @@ def check_single(ld, kind, n, b, rngkind, seed, res):
                     break
     if n >= 3:
         res.seen(f'orders:{kind}', tuple(epochs[0]))
+    if path != 'direct':
+        return
     try:
         if len(ds) != n:
             res.violation('len-differs', case, {'len': len(ds)}, sig={'shuffle': kind})
@@ -259,6 +267,25 @@ def check_interleaved_items(ld, kind, n, b, rngkind, seed, order, res, extra_pas
         res.violation('interleaved-items-raised', case, exc_sig(e),
                       sig={'shuffle': kind, 'concurrent': True, 'keyed': True})
         return
+    # key lookup on the shuffled dataset, asked after the interleaving (the
+    # iterators may still be in flight): the example stored under that key,
+    # never one the current permutation happens to put at some position
+    for j in list(range(n)) + ['absent']:
+        key = f'k{j}'
+        try:
+            got = ds[key]
+        except BaseException as e:
+            if j != 'absent' and kind in ('reshuffle', 'local', 'once'):
+                res.violation('key-lookup-refused', {**case, 'key': key}, exc_sig(e),
+                              sig={'shuffle': kind, 'keyed': True})
+                return
+            res.count('shuffled_key_lookups_refused')
+            continue
+        res.count('shuffled_key_lookups')
+        if j == 'absent' or got != j:
+            res.violation('key-lookup-wrong', {**case, 'key': key}, {'got': repr(got)},
+                          sig={'shuffle': kind, 'keyed': True})
+            return
     for out in outs:
         res.count('keyed_interleaved_iterators_checked')
         if any(not (isinstance(p, tuple) and len(p) == 2 and p[0] == f'k{p[1]}')
@@ -347,6 +374,9 @@ def run_shard(spec, res):
             for b in bs:
                 for s in range(spec['seeds']):
                     check_single(ld, kind, n, b, spec['rng'], base + s, res)
+                    if s < 2 and kind in ('local', 'reshuffle', 'once'):
+                        for path in COPYING:
+                            check_single(ld, kind, n, b, spec['rng'], base + s, res, path)
         res.sample({'shuffle': kind, 'rng': spec['rng'], 'n': 6, 'b': 3,
                     'epochs': [list(shuffled(ld, kind, 6, 3, spec['rng'], base))
                                for _ in range(1)]})
@@ -452,4 +482,4 @@ def replay(case, res):
         check_tile(ld, case['n'], case['reps'], case['seed'], res)
     else:
         check_single(ld, case['shuffle'], case['n'], case['b'], case['rng'],
-                     case['seed'], res)
+                     case['seed'], res, case.get('path', 'direct'))
